@@ -15,9 +15,9 @@ broadcast use vstd::std_specs::hash::group_hash_axioms;
 //#include ../_shared/checkpoint_kind.inc.rs
 
 // stand-ins: never inspected by the verified text
-pub struct Repository { pub _opaque: () }
-pub struct Message { pub _opaque: () }
-pub struct AuthorshipMetadata { pub _opaque: () }
+#[verifier::external_body] pub struct Repository { _o: () }
+#[verifier::external_body] pub struct Message { _o: () }
+#[verifier::external_body] pub struct AuthorshipMetadata { _o: () }
 
 //#item file=src/authorship/authorship_log.rs kind=struct name=Author
 pub struct Author {
@@ -203,7 +203,7 @@ impl AuthorshipLog {
 #[verifier::external_body]
 #[verifier::reject_recursive_types(T)]
 pub struct DateTime<T> { _p: core::marker::PhantomData<T> }
-pub struct FixedOffset { pub _opaque: () }
+#[verifier::external_body] pub struct FixedOffset { _o: () }
 //#item file=src/commands/blame.rs kind=struct name=BlameHunk
 pub struct BlameHunk {
     pub range: (u32, u32),
